@@ -354,7 +354,7 @@ pub fn apply_all(book: &mut Spreadsheet, ops: &[Op]) {
 
 /// few coordinates (collisions are frequent), chosen so that string order, (column,row) order and
 /// (row,column) order all differ: two-digit rows, two-letter columns
-pub const CELLS: &[&str] = &["A1", "B1", "A10", "C1", "A2", "AA1", "B2", "C2", "A3", "B10", "B3", "D5", "A7", "E2", "C9", "Z3", "AB12"];
+pub const CELLS: &[&str] = &["A1", "B1", "A10", "C1", "A2", "AA1", "B2", "C2", "A3", "B10", "B3", "D5", "A7", "E2", "C9", "Z3", "AB12", "XFD3", "XFC3", "XFD4", "A1048576"];
 
 pub const ALPHABETS: &[&[&str]] = &[
     &["a", "b", "c", "x", "y", "z", "0", "1", " "],
@@ -630,6 +630,7 @@ pub fn dump_sheet_deep(ws: &umya::Worksheet) -> Value {
         "dv": h(format!("{:?}", ws.get_data_validations())),
         "dv2010": h(format!("{:?}", ws.get_data_validations_2010())),
         "tables": ws.get_tables().iter().map(|t| format!("{}|{}|{:?}", t.get_name(), t.get_display_name(), t.get_area())).collect::<Vec<_>>(),
+        "tables_full": ws.get_tables().iter().map(|t| h(format!("{:?}", t))).collect::<Vec<_>>(),
         "auto_filter": format!("{:?}", ws.get_auto_filter()),
         "tab_color": format!("{:?}", ws.get_tab_color()),
         "page_setup": h(format!("{:?}", ws.get_page_setup())),
